@@ -69,6 +69,14 @@ func valBuild(name string, seed uint64) *lib.Build {
 		b.PutSymlink("lnk-odd-slashes", "sub//deep/./two.bin")
 		b.PutSymlink("sib/lnk-dir", "deep") // the look-alike sibling holds links of the same name and destination
 		b.PutSymlink("sib/lnk-odd-up", "../sub/deep/")
+	case "allempty":
+		// every file is empty: the container's total size is 0 although it has files, directories and links
+		b.PutFile("a.empty", nil)
+		b.PutFile("d/b.empty", nil)
+		b.PutFile("d/e/c.empty", nil)
+		b.PutFile("z.empty", nil)
+		b.PutDir("hollow")
+		b.PutSymlink("lnk", "a.empty")
 	default: // small
 		b.PutFile("e.bin", nil)
 		b.PutFile("t.bin", rb(10))
@@ -148,7 +156,10 @@ func c05Cases(tier string, seed uint64, flavor string) []lib.Case {
 		nb = 30
 	}
 	for bi := 0; bi < nb; bi++ {
-		for _, name := range builds {
+		for _, name := range append(append([]string(nil), builds...), "allempty") {
+			if name == "allempty" && bi > 0 {
+				continue // no random content in it: one instance per seed
+			}
 			bs := lib.Mix(seed, 5, uint64(bi))
 			b := valBuild(name, bs)
 			ds := treeDamages(b)
